@@ -22,129 +22,120 @@ theorem lr_getElem (p : Pool) (i : Nat) (w : Worker) (h : p.LOK) (hw : p.workers
   h w (List.mem_of_getElem? hw)
 
 /-- **`WorkerPool.place_task` of a task that is resident on no worker of the pool keeps the invariant**
-(whatever it answers, if it does not raise). -/
-theorem lr_placeTask (p : Pool) (t : Nat) (strats : List Strategy) (s? : Option Strategy) (wid? : Option Nat) (b : Bool)
-    (h : p.LOK) (hnone : ∀ x ∈ p.workers, t ∉ AList.keys x.placed)
-    (hok : (p.placeTask t strats s? wid?).2 = .ok b) : (p.placeTask t strats s? wid?).1.LOK := by
-  revert hok
+(whatever it answers, also when it raises). -/
+theorem lr_placeTask (p : Pool) (t : Nat) (strats : List Strategy) (s? : Option Strategy) (wid? : Option Nat)
+    (h : p.LOK) (hnone : ∀ x ∈ p.workers, t ∉ AList.keys x.placed) : (p.placeTask t strats s? wid?).1.LOK := by
   unfold placeTask
   simp only []
   split
-  · intro _; exact h
-  · intro _; exact h
-  · intro _; exact h
+  · exact h
+  · exact h
+  · exact h
   · rename_i i s _
     cases hw : p.workers[i]? with
-    | none => intro _; exact h
+    | none => exact h
     | some w =>
       simp only []
-      have hk := Worker.lk_placeTask w t s (lr_getElem p i w h hw) (hnone w (List.mem_of_getElem? hw))
+      have hk := Worker.lka_placeTask w t s (lr_getElem p i w h hw) (hnone w (List.mem_of_getElem? hw))
       cases hp : w.placeTask t s with
       | mk w' o =>
         rw [hp] at hk
         cases o with
-        | raised e => intro hok; simp at hok
-        | ok =>
-          intro _
-          exact lr_setWorker p i w' h (hk rfl)
+        | raised e => exact lr_setWorker p i w' h hk
+        | ok => exact lr_setWorker p i w' h hk
 
-/-- **A successful `WorkerPool.remove_task` keeps the invariant.** -/
-theorem lr_removeTask (p : Pool) (t : Nat) (h : p.LOK) (hok : (p.removeTask t).2 = .ok) : (p.removeTask t).1.LOK := by
-  revert hok
+/-- **`WorkerPool.remove_task` keeps the invariant** (also when it raises). -/
+theorem lr_removeTask (p : Pool) (t : Nat) (h : p.LOK) : (p.removeTask t).1.LOK := by
   unfold removeTask
   split
-  · intro _; exact h
+  · exact h
   · rename_i i hi
     cases hw : p.workers[i]? with
-    | none => intro _; exact h
+    | none => exact h
     | some w =>
       simp only []
-      have hk := Worker.lk_removeTask w t (lr_getElem p i w h hw)
+      have hk := Worker.lka_removeTask w t (lr_getElem p i w h hw)
       cases hp : w.removeTask t with
       | mk w' o =>
         rw [hp] at hk
         cases o with
-        | raised e => intro hok; simp at hok
-        | ok => intro _; exact lr_setWorker p i w' h (hk rfl)
+        | raised e => exact lr_setWorker p i w' h hk
+        | ok => exact lr_setWorker p i w' h hk
 
 theorem lr_loadProfile_go (prof : Nat) (s : Strategy) :
-    ∀ (n i : Nat) (p : Pool), p.LOK → (loadProfile.go p prof s n i).2 = .ok → (loadProfile.go p prof s n i).1.LOK := by
+    ∀ (n i : Nat) (p : Pool), p.LOK → (loadProfile.go p prof s n i).1.LOK := by
   intro n
   induction n with
-  | zero => intro i p h _; exact h
+  | zero => intro i p h; exact h
   | succ n ih =>
     intro i p h
     simp only [loadProfile.go]
     cases hw : p.workers[i]? with
-    | none => intro _; exact h
+    | none => exact h
     | some w =>
       simp only []
-      have hk := Worker.lk_loadProfile w prof s (lr_getElem p i w h hw)
+      have hk := Worker.lka_loadProfile w prof s (lr_getElem p i w h hw)
       cases hl : w.loadProfile prof s with
       | mk w' o =>
         rw [hl] at hk
         cases o with
-        | ok => simp only []; exact ih (i + 1) _ (lr_setWorker p i w' h (hk rfl))
-        | raised e => intro hok; simp at hok
+        | ok => simp only []; exact ih (i + 1) _ (lr_setWorker p i w' h hk)
+        | raised e => exact lr_setWorker p i w' h hk
 
-/-- **A successful `WorkerPool.load_profile` keeps the invariant.** -/
-theorem lr_loadProfile (p : Pool) (prof : Nat) (s : Strategy) (wid? : Option Nat) (h : p.LOK)
-    (hok : (p.loadProfile prof s wid?).2 = .ok) : (p.loadProfile prof s wid?).1.LOK := by
-  revert hok
+/-- **`WorkerPool.load_profile` keeps the invariant** (also when it raises half-way). -/
+theorem lr_loadProfile (p : Pool) (prof : Nat) (s : Strategy) (wid? : Option Nat) (h : p.LOK) :
+    (p.loadProfile prof s wid?).1.LOK := by
   unfold loadProfile
   cases wid? with
   | some i =>
     simp only []
     cases hw : p.workers[i]? with
-    | none => intro _; exact h
+    | none => exact h
     | some w =>
       simp only []
-      have hk := Worker.lk_loadProfile w prof s (lr_getElem p i w h hw)
+      have hk := Worker.lka_loadProfile w prof s (lr_getElem p i w h hw)
       cases hl : w.loadProfile prof s with
       | mk w' o =>
         rw [hl] at hk
-        intro hok
-        exact lr_setWorker p i w' h (hk hok)
+        exact lr_setWorker p i w' h hk
   | none => exact lr_loadProfile_go prof s _ _ p h
 
 theorem lr_evictProfile_go (prof : Nat) :
-    ∀ (n i : Nat) (p : Pool), p.LOK → (evictProfile.go p prof n i).2 = .ok → (evictProfile.go p prof n i).1.LOK := by
+    ∀ (n i : Nat) (p : Pool), p.LOK → (evictProfile.go p prof n i).1.LOK := by
   intro n
   induction n with
-  | zero => intro i p h _; exact h
+  | zero => intro i p h; exact h
   | succ n ih =>
     intro i p h
     simp only [evictProfile.go]
     cases hw : p.workers[i]? with
-    | none => intro _; exact h
+    | none => exact h
     | some w =>
       simp only []
-      have hk := Worker.lk_evictProfile w prof (lr_getElem p i w h hw)
+      have hk := Worker.lka_evictProfile w prof (lr_getElem p i w h hw)
       cases hl : w.evictProfile prof with
       | mk w' o =>
         rw [hl] at hk
         cases o with
-        | ok => simp only []; exact ih (i + 1) _ (lr_setWorker p i w' h (hk rfl))
-        | raised e => intro hok; simp at hok
+        | ok => simp only []; exact ih (i + 1) _ (lr_setWorker p i w' h hk)
+        | raised e => exact lr_setWorker p i w' h hk
 
-/-- **A successful `WorkerPool.evict_profile` keeps the invariant.** -/
-theorem lr_evictProfile (p : Pool) (prof : Nat) (wid? : Option Nat) (h : p.LOK)
-    (hok : (p.evictProfile prof wid?).2 = .ok) : (p.evictProfile prof wid?).1.LOK := by
-  revert hok
+/-- **`WorkerPool.evict_profile` keeps the invariant** (also when it raises half-way). -/
+theorem lr_evictProfile (p : Pool) (prof : Nat) (wid? : Option Nat) (h : p.LOK) :
+    (p.evictProfile prof wid?).1.LOK := by
   unfold evictProfile
   cases wid? with
   | some i =>
     simp only []
     cases hw : p.workers[i]? with
-    | none => intro _; exact h
+    | none => exact h
     | some w =>
       simp only []
-      have hk := Worker.lk_evictProfile w prof (lr_getElem p i w h hw)
+      have hk := Worker.lka_evictProfile w prof (lr_getElem p i w h hw)
       cases hl : w.evictProfile prof with
       | mk w' o =>
         rw [hl] at hk
-        intro hok
-        exact lr_setWorker p i w' h (hk hok)
+        exact lr_setWorker p i w' h hk
   | none => exact lr_evictProfile_go prof _ _ p h
 
 theorem lr_stepProfiles (p : Pool) (dt : Int) (h : p.LOK) : (p.stepProfiles dt).LOK := by
